@@ -30,7 +30,8 @@ RE_NOTFOUND = re.compile(r"^ERROR: (Solution|Mix|Pure phase assemblage|Reaction|
                          r"Pressure|Gas_phase|ss_assemblage) (-?\d+) not found\.$")
 RE_INIT = re.compile(r"^ERROR: Solution not found for initial (exchange|surface) calculation")
 RE_MIXMISSING = re.compile(r"^ERROR: Mix solution not found, (-?\d+)\.$")
-RE_BENIGN = re.compile(r"not found in mix|^ERROR: Program terminating due to input errors\.|^ERROR: Calculations terminating")
+RE_INPUTERR = re.compile(r"^ERROR: Calculations terminating due to input errors\.")
+RE_BENIGN = re.compile(r"not found in mix_cxxSolutions|^ERROR: Program terminating due to input errors\.")
 SAVE_DESC = {"solution": r"Solution after simulation \d+\.", "pp": r"Pure-phase assemblage after simulation \d+\.",
              "exchange": r"Exchange assemblage after simulation \d+\.", "gas": r"Gas phase after simulation \d+\.",
              "ss": r"Solid solution assemblage after simulation \d+"}
@@ -94,6 +95,17 @@ def split_dump(text):
     return out
 
 
+def canon(kind, lines):
+    """content lines used for 'same content' comparisons. KINETICS: the trailing `-totals` block is a workspace that
+    list_components (GetComponentCount) refills in the stored object itself (calc_dummy_kinetic_reaction_tally), so it
+    changes by being observed; it is left out."""
+    if kind == "kinetics":
+        for i in range(len(lines) - 1, -1, -1):
+            if lines[i].startswith("  -totals"):
+                return lines[:i]
+    return lines
+
+
 def parse_formula(f):
     """element names of a chemical formula such as CaSO4:2H2O, Ca(OH)2, NaX, CO2(g)"""
     f = re.sub(r"\((g|s|l|aq)\)$", "", f)
@@ -128,9 +140,15 @@ def load_phases(db):
 
 
 def entry_elements(kind, lines, phases):
-    """elements present in one dumped entry (direct reading of the RAW text)"""
+    """elements present (non-zero amount) in one dumped entry — direct reading of the RAW text"""
     els = set()
-    sect = None
+    sect, comp = None, None
+
+    def nonzero(w):
+        try:
+            return float(w) != 0.0
+        except ValueError:
+            return False
     for ln in lines:
         s = ln.strip()
         if s.startswith("#"):
@@ -139,15 +157,17 @@ def entry_elements(kind, lines, phases):
         if w[0].startswith("-"):
             sect = w[0]
             if w[0] == "-component" and len(w) > 1:
-                if kind in ("pp", "gas", "ss"):
-                    els |= phases.get(w[1], set())
-                elif kind in ("exchange", "surface"):
-                    els |= parse_formula(w[1])
+                comp = w[1]
+            elif w[0] == "-moles" and comp and kind in ("pp", "gas", "ss") and len(w) > 1 and nonzero(w[1]):
+                els |= phases.get(comp, set())
             continue
         # data line under the last option
-        if sect in ("-totals", "-eltList", "-namecoef", "-reactant_list") and len(w) >= 2:
+        if sect in ("-totals", "-namecoef", "-reactant_list") and len(w) >= 2 and nonzero(w[1]):
             name = w[0]
-            els |= phases.get(name, None) or parse_formula(name.split("(")[0] if sect in ("-totals", "-eltList") else name)
+            if sect == "-totals":
+                els |= parse_formula(name.split("(")[0])
+            else:
+                els |= phases[name] if name in phases else parse_formula(name)
     return els
 
 
@@ -229,6 +249,9 @@ def classify_errors(err):
             continue
         if RE_BENIGN.search(ln):
             continue
+        if RE_INPUTERR.match(ln):
+            stop = stop or ["inputerrors"]
+            continue
         other.append(ln)
     return stop, other
 
@@ -280,7 +303,7 @@ class Judge:
                 return ("bad", f"call {ci}: engine stopped with {stop}, model predicts {mstop}")
             if stop[0] == "init" and (mstop[0] != "init" or mstop[1] != stop[1]):
                 return ("bad", f"call {ci}: engine stopped with {stop}, model predicts {mstop}")
-            if stop[0] == "mixmissing" and mstop[0] != "mixmissing":
+            if stop[0] in ("mixmissing", "inputerrors") and mstop[0] != stop[0]:
                 return ("bad", f"call {ci}: engine stopped with {stop}, model predicts {mstop}")
         _, other2 = classify_errors(eng.get("err2", ""))
         if other2:
@@ -293,7 +316,8 @@ class Judge:
             only_m = [x for x in keys_m if x not in keys_e]
             return ("bad", f"call {ci}: entries differ: only in engine {only_e[:6]}, only in model {only_m[:6]}"
                     + ("" if only_e or only_m else " (order)"))
-        for (k, n, desc, lines), (_, _, tok) in zip(ents, mod["E"]):
+        for (k, n, desc, rawlines), (_, _, tok) in zip(ents, mod["E"]):
+            lines = canon(k, rawlines)
             self.stats["entries"] += 1
             ed = self.expected_desc(tok)
             if ed and ((ed[0] == "eq" and desc != ed[1]) or (ed[0] == "re" and not re.fullmatch(ed[1], desc))):
